@@ -35,6 +35,7 @@ def shards(tier, seed):
             for kind in ("tensor", "trailing", "tuple"):
                 out.append(dict(name="A%d/L%d/%s" % (A, L, kind), A=A, L=L, kind=kind, weight=A * L * L * L))
     out.append(dict(name="history", history=True, A=4, L=4, kind="tensor", weight=2000))
+    out.append(dict(name="long", long=True, A=4, L=300, kind="tensor", weight=3000))
     return out
 
 
@@ -73,8 +74,46 @@ def run_shard(sh, tier, seed):
         for (A, L, kind) in ((4, 4, "tensor"), (5, 4, "tensor"), (3, 4, "tuple"), (5, 4, "trailing"), (2, 4, "tensor"), (4, 5, "tuple"), (4, 4, "tensor")):
             run_one(rec, A, L, kind, "quick", seed)
         return rec.result()
+    if sh.get("long"):
+        run_long(rec, tier, seed)
+        return rec.result()
     run_one(rec, sh["A"], sh["L"], sh["kind"], tier, seed)
     return rec.result()
+
+
+def run_long(rec, tier, seed):
+    """Lengths beyond 8-bit counts and the default batch size (A*W = 1200 and 2000 mutants per example), default arguments."""
+    from tangermeme.ism import saturation_mutagenesis
+    for (A, L, s, e) in ((4, 300, 0, -1), (4, 300, 40, 300), (5, 400, 0, -1), (4, 70, 0, -1)):
+        model = Model(A, L, "tensor", seed)
+        N = 2
+        codes = numpy.stack([(numpy.arange(L) * (n + 3) + n + numpy.arange(L) // 7) % A for n in range(N)])
+        X = ohe(codes, A)
+        args = (torch.arange(N, dtype=torch.float64)[:, None] + 1,)
+        e_ = L if e == -1 else e
+        Wn = e_ - s
+        with torch.no_grad():
+            y0_ref = torch.cat([model(X[n:n + 1], args[0][n:n + 1]) for n in range(N)])
+            yh_ref = torch.zeros(N, A, Wn, y0_ref.shape[1], dtype=torch.float64)
+            for n in range(N):
+                Xm = X[n:n + 1].repeat(A * Wn, 1, 1)
+                for c in range(A):
+                    for p in range(s, e_):
+                        Xm[c * Wn + (p - s), :, p] = 0
+                        Xm[c * Wn + (p - s), c, p] = 1
+                yh_ref[n] = model(Xm, args[0][n:n + 1].repeat(A * Wn, 1)).reshape(A, Wn, -1)
+        for bs in (None, 1000, 255, 257):
+            kw = {} if bs is None else dict(batch_size=bs)
+            case = dict(fn="saturation_mutagenesis", A=A, L=L, N=N, start=s, end=e, batch_size=bs or "default(32)", kind="tensor", args=True)
+            st, val = call(saturation_mutagenesis, model, X, args=args, start=s, end=e, raw_outputs=True, device="cpu", **kw)
+            rec.case(1, 1)
+            if st != "ok":
+                rec.violation("ism:raw_raises:long", case, observed=val)
+                continue
+            if not torch.equal(val[0].double(), y0_ref) or tuple(val[1].shape) != tuple(yh_ref.shape) or not torch.equal(val[1].double(), yh_ref):
+                rec.violation("ism:y_hat_misindexed:long", case)
+            rec.observe(A, L, s, e, bs)
+    rec.sample(dict(kind="long", cases=[[4, 300, 0, -1], [4, 300, 40, 300], [5, 400, 0, -1], [4, 70, 0, -1]], batch_sizes=["default", 1000, 255, 257]))
 
 
 def run_one(rec, A, L, kind, tier, seed):
